@@ -213,6 +213,12 @@ class FragGen:
         rng = self.rng
         self.tame = True
         self.make_vars()
+        if rng.chance(1, 4):
+            # variant (found by C01-oracle, round 6): a fixed-true `and` is removed and its variable set to 0..0 (FixUnusedDefinedVars)
+            # while a natively accepted Not still reads it: not(not(and(a,b))) as a logical row
+            lcons = [('not', ('not', ('and', [self.log(0), self.log(0)])))]
+            cons = [(('add', [self.num(1, True), ('v', rng.choice(self.ints))]), None, F(rng.rint(2, 5)))] if rng.chance(1, 2) else []
+            return cons, lcons, None
         op = rng.choice(['or', 'and'])
         inner = (op, [self.log(0), self.log(0)])
         parent = (op, [self.log(0), inner] if rng.chance(1, 2) else [inner, self.log(0)])
@@ -588,9 +594,9 @@ def run_refconv(ck, drv, exe, n_models, seed_base, wd, log=None):
                     st['flagged_why'][w] = st['flagged_why'].get(w, 0) + 1
                 same = (not real_ref) and not compare(c, r)
                 st['flagged_agree'] += same
-                if same:
+                if same and fam not in ('shared-nested', 'levels'):
                     continue
-                st['flagged_differ'] += 1
+                st['flagged_differ'] += not same
                 if real_ref or not (fam in ('shared-nested', 'levels') or st['flagged_oracle_runs'] < oracle_cap):
                     continue
                 st['flagged_oracle_runs'] += 1
